@@ -527,6 +527,9 @@ def run(model, col, tier, share=True):
         from ..sem import expand_helpers as _xh25
 
         cv = _xh25(model, model.cls(OCC, "OptimizeConstantCastVisitor"), cv)
+        from ..sem import expand_module_helpers as _xmh25
+
+        cv = _xmh25(model, OCC, cv, skip=("v_", "GetPass"))  # a module-level `_FoldCast(type, value)` is read in place
 
     def cast_table(body, typeexpr_markers, valnames):
         """{('Float',) / ('Integer', unsigned?): normalised expression}"""
@@ -618,6 +621,8 @@ def run(model, col, tier, share=True):
             t_ = rtext(v_, {k: x for k, x in env0_.items() if k != nm_})
             if isinstance(v_, ast.Name) and v_.id.isupper() and v_.id in model.file(OCC).assigns:
                 return True
+            if isinstance(v_, ast.Constant) and v_.value is None:
+                return True  # "nothing folded" marker of a helper that returns (folded?, value)
             return t_.startswith(("float(", "int(", "math.floor(", "abs(", "math.trunc(")) and f"{cip_}.Value.Value" in t_
 
         if all(conv_(v_) for v_ in vs_):
